@@ -127,6 +127,18 @@ enum Real {
     Panicked(String),
 }
 
+thread_local! {
+    /// entry routes that answered differently for one input (drained by `Env::eval`)
+    static ROUTE_MISMATCH: std::cell::RefCell<Vec<String>> = const { std::cell::RefCell::new(Vec::new()) };
+}
+
+fn verdict_of<T>(r: &Result<T, KipError>) -> String {
+    match r {
+        Ok(_) => "ok".into(),
+        Err(e) => format!("err:{}", e.name()),
+    }
+}
+
 fn run_real(op: &str) -> Real {
     let (kind, rest) = op.split_once(' ').unwrap_or((op, ""));
     let r = catch_unwind(AssertUnwindSafe(|| match kind {
@@ -134,16 +146,38 @@ fn run_real(op: &str) -> Real {
             Err(_) => Real::Undecodable,
             Ok(cmd) => {
                 let tree = serde_json::to_value(&cmd).expect("Command serialises");
-                match validate_command(&cmd) {
+                let direct = validate_command(&cmd);
+                // the request route of a pre-parsed tree: Operation { ast }.parse()
+                let via_operation = anda_kip::Operation { ast: Some(cmd.clone()), ..Default::default() }.parse();
+                if verdict_of(&direct) != verdict_of(&via_operation) || via_operation.as_ref().is_ok_and(|c| *c != cmd) {
+                    ROUTE_MISMATCH.with(|m| m.borrow_mut().push(format!("validate_command: {}, Operation{{ast}}.parse(): {}", verdict_of(&direct), verdict_of(&via_operation))));
+                }
+                match direct {
                     Ok(()) => Real::Accepted(tree),
                     Err(e) => Real::Rejected(e, Some(tree)),
                 }
             }
         },
-        "text" => match parse_kip(rest) {
-            Ok(cmd) => Real::Accepted(serde_json::to_value(&cmd).expect("Command serialises")),
-            Err(e) => Real::Rejected(e, None),
-        },
+        "text" => {
+            let direct = parse_kip(rest);
+            let via_operation = anda_kip::Operation::new(rest).parse();
+            let mut same = verdict_of(&direct) == verdict_of(&via_operation) && (direct.is_err() || direct.as_ref().ok() == via_operation.as_ref().ok());
+            let mut detail = format!("parse_kip: {}, Operation{{command}}.parse(): {}", verdict_of(&direct), verdict_of(&via_operation));
+            if let Ok(Command::Kml(st)) = &direct {
+                let via_kml = anda_kip::parse_kml(rest);
+                if via_kml.as_ref().ok() != Some(st) {
+                    same = false;
+                    detail.push_str(&format!(", parse_kml: {}", verdict_of(&via_kml)));
+                }
+            }
+            if !same && !rest.trim().is_empty() {
+                ROUTE_MISMATCH.with(|m| m.borrow_mut().push(detail));
+            }
+            match direct {
+                Ok(cmd) => Real::Accepted(serde_json::to_value(&cmd).expect("Command serialises")),
+                Err(e) => Real::Rejected(e, None),
+            }
+        }
         _ => Real::Undecodable,
     }));
     match r {
@@ -268,7 +302,14 @@ impl Env {
             return;
         }
         self.report.hit(&format!("op:{kind}"));
-        match run_real(op) {
+        let real = run_real(op);
+        for m in ROUTE_MISMATCH.with(|m| std::mem::take(&mut *m.borrow_mut())) {
+            self.report.hit("oracle:entry-routes-differ");
+            if self.seen_failure_keys.insert("entry-routes-differ".into()) {
+                self.report.oracle_failure("entry-routes-differ", "two entry routes of the parser crate answer differently for the same input", &[op.to_string()], "the same verdict and tree from every route", &m);
+            }
+        }
+        match real {
             Real::Undecodable => {
                 self.report.hit("err:decode");
                 self.report.case(op, false);
@@ -378,11 +419,18 @@ impl Env {
             format!("exec {kind} {variant} 0")
         };
         let model = self.ask(line.trim_end());
+        let mut via_tree = false;
         let (before, outcome, after) = {
             let w = self.world.as_ref().unwrap();
             let rt = self.rt.as_ref().unwrap();
             let before = rt.block_on(w.view(&kind));
-            let outcome = rt.block_on(w.exec(&text, &params));
+            // text route first; what the parser itself refuses (engine-owned keys) is sent as a tree
+            // straight to the executor, so that the engine's own gate is the one that answers
+            let mut outcome = rt.block_on(w.exec(&text, None, &params));
+            if let nexus::Outcome::Parse(_) = outcome {
+                via_tree = true;
+                outcome = rt.block_on(w.exec(&text, Some(&cmd), &params));
+            }
             let after = rt.block_on(w.view(&kind));
             (before, outcome, after)
         };
@@ -393,6 +441,9 @@ impl Env {
             nexus::Outcome::Refused { code, .. } => format!("downstream:{code}"),
             nexus::Outcome::Done { changed } => format!("done:{}", if *changed { "changed" } else { "no_effect" }),
         };
+        if via_tree {
+            self.report.hit("exec:parser_refused_text:sent_as_tree");
+        }
         self.report.hit(&format!("exec:{kind}:{variant}:{}", real.split(':').take(2).collect::<Vec<_>>().join(":")));
         self.report.case(&format!("{kind} {text} {real}"), real.starts_with("done"));
         if let Some(model) = model {
@@ -971,7 +1022,7 @@ fn probe() {
             params.insert("id".to_string(), Value::String(w.ids[kind].clone()));
             for act in ["SET FIELDS {name: \"n2\"}", "SET FIELDS {stance: \"oppose\"}", "SET FIELDS {key: \"k\"}", "SET FIELDS {name: 3}", "SET ATTRIBUTES {note: \"x\"}", "UNSET ATTRIBUTES {note}",
                         "SET FACET \"MnemonicState\" {salience: 0.5}", "UNSET FACET \"MnemonicState\" {salience}", "SET STRUCTURAL { (\"has_step\", :id) }", "UNSET STRUCTURAL { (\"has_step\", :id) }"] {
-                let o = w.exec(&format!("UPDATE :id {act}"), &params).await;
+                let o = w.exec(&format!("UPDATE :id {act}"), None, &params).await;
                 eprintln!("{kind:12} {act:50} -> {:?}", match &o { nexus::Outcome::Refused{code, message} => format!("REFUSED {code}: {}", &message[..message.len().min(70)]), other => format!("{other:?}") });
             }
         }
